@@ -188,6 +188,10 @@ func (d *DataSource) Load(ctx context.Context, headers http.Header, input []byte
 					results[index].entityCount = len(representations)
 				}
 
+				if serviceCall.RPC.Kind == CallKindRequired {
+					results[index].entityIndexMap = newRequiredFieldsIndexMap(requiredFieldsEntityTypes(serviceCall.RPC), representations)
+				}
+
 				return nil
 			})
 		}
@@ -198,7 +202,9 @@ func (d *DataSource) Load(ctx context.Context, headers http.Header, input []byte
 
 		for _, result := range results {
 			switch result.kind {
-			case CallKindResolve, CallKindRequired:
+			case CallKindRequired:
+				err = builder.mergeRequiredFields(root, result)
+			case CallKindResolve:
 				err = builder.mergeWithPath(root, result.response, result.responsePath)
 			default:
 				root, err = builder.mergeValues(root, result)
